@@ -194,13 +194,51 @@ def _unit_text(k):
     return [["r", 900 + k]]
 
 
+# ----------------------------------------------------------------------------- grouping constructs
+# a["nest"]: the construct the picture anchor is wrapped in ("" = directly on the page / in the body)
+NESTS = {
+    "odt": ["", "g", "gg"], "odp": ["", "g", "gg"], "ods": ["", "g", "gg"], "odg": ["", "g", "gg"],
+    "pptx": ["", "grp", "grp2"], "xlsx": ["", "grp"], "docx": ["", "tc", "sdt", "tbx", "wpg"],
+    "epub": ["", "figure", "a", "td"], "rtf": ["", "shp", "cell"], "pdf": [""],
+}
+
+
+def _replace_nth(text: str, pattern: str, wrap) -> str:
+    """Rewrite the matches of pattern in order: wrap(k, matched text) for the k-th match (0-based)."""
+    import re
+    k = [-1]
+
+    def sub(m):
+        k[0] += 1
+        return wrap(k[0], m.group(0))
+    return re.sub(pattern, sub, text, flags=re.S)
+
+
 # ----------------------------------------------------------------------------- DOCX
-def _docx_drawing(k, rid):
-    return (f'<w:p><w:r><w:drawing><wp:inline><wp:extent cx="100" cy="100"/><wp:docPr id="{k}" name="Picture {k}"/>'
-            '<a:graphic><a:graphicData uri="http://schemas.openxmlformats.org/drawingml/2006/picture">'
-            f'<pic:pic><pic:nvPicPr><pic:cNvPr id="{k}" name="img{k}"/><pic:cNvPicPr/></pic:nvPicPr>'
-            f'<pic:blipFill><a:blip r:embed="{rid}"/></pic:blipFill><pic:spPr/></pic:pic>'
-            '</a:graphicData></a:graphic></wp:inline></w:drawing></w:r></w:p>')
+def _docx_drawing(k, rid, nest=""):
+    pic = (f'<pic:pic><pic:nvPicPr><pic:cNvPr id="{k}" name="img{k}"/><pic:cNvPicPr/></pic:nvPicPr>'
+           f'<pic:blipFill><a:blip r:embed="{rid}"/></pic:blipFill><pic:spPr/></pic:pic>')
+    inline = (f'<w:drawing><wp:inline><wp:extent cx="100" cy="100"/><wp:docPr id="{k}" name="Picture {k}"/>'
+              '<a:graphic><a:graphicData uri="http://schemas.openxmlformats.org/drawingml/2006/picture">'
+              f'{pic}</a:graphicData></a:graphic></wp:inline></w:drawing>')
+    para = f"<w:p><w:r>{inline}</w:r></w:p>"
+    if nest == "tc":           # picture in a table cell
+        return ('<w:tbl><w:tblPr><w:tblW w:w="0" w:type="auto"/></w:tblPr><w:tblGrid><w:gridCol w:w="2000"/></w:tblGrid>'
+                f'<w:tr><w:tc><w:tcPr><w:tcW w:w="2000" w:type="dxa"/></w:tcPr>{para}</w:tc></w:tr></w:tbl>')
+    if nest == "sdt":          # picture in a block-level content control
+        return f'<w:sdt><w:sdtPr><w:alias w:val="pic"/></w:sdtPr><w:sdtContent>{para}</w:sdtContent></w:sdt>'
+    if nest == "tbx":          # picture in a text box (a drawing inside a drawing)
+        return ('<w:p><w:r><mc:AlternateContent><mc:Choice Requires="wps"><w:drawing><wp:anchor>'
+                f'<wp:docPr id="{500 + k}" name="Text Box {k}"/>'
+                '<a:graphic><a:graphicData uri="http://schemas.microsoft.com/office/word/2010/wordprocessingShape">'
+                f'<wps:wsp><wps:txbx><w:txbxContent>{para}</w:txbxContent></wps:txbx></wps:wsp>'
+                '</a:graphicData></a:graphic></wp:anchor></w:drawing></mc:Choice></mc:AlternateContent></w:r></w:p>')
+    if nest == "wpg":          # picture in a drawing group
+        return (f'<w:p><w:r><w:drawing><wp:inline><wp:extent cx="100" cy="100"/><wp:docPr id="{k}" name="Group {k}"/>'
+                '<a:graphic><a:graphicData uri="http://schemas.microsoft.com/office/word/2010/wordprocessingGroup">'
+                '<wpg:wgp xmlns:wpg="http://schemas.microsoft.com/office/word/2010/wordprocessingGroup"><wpg:cNvGrpSpPr/>'
+                f'<wpg:grpSpPr/>{pic}</wpg:wgp></a:graphicData></a:graphic></wp:inline></w:drawing></w:r></w:p>')
+    return para
 
 
 def _rel_xml(rid, t, k):
@@ -212,7 +250,7 @@ def build_docx(conc) -> bytes:
     doc = {"kind": "flow", "blocks": [["p", _unit_text(1)], ["p", [["r", 950]]]], "header": [], "footer": [], "props": {}}
     base = wdocx.write_docx(doc)
     rids = _rids(conc, False)
-    body = "".join(_docx_drawing(i + 1, rids[i]) for i in range(len(conc["anchors"])))
+    body = "".join(_docx_drawing(i + 1, rids[i], a.get("nest", "")) for i, a in enumerate(conc["anchors"]))
     rels = ""
     for i in conc["order"]:
         a = conc["anchors"][i - 1]
@@ -245,7 +283,28 @@ def build_pptx(conc) -> bytes:
             imgs.append({"target": target_string(t, i + 1) if t else "", "part": None, "data": None,
                          "external": bool(t and t["mode"] == "external"), "rid": rids[i], "norel": t is None})
         slides.append({"shapes": [["title", _unit_text(u)]], "notes": [], "images": imgs})
-    return zip_patch(wpptx.write_pptx({"kind": "deck", "slides": slides}), add=media_files(conc))
+    base = wpptx.write_pptx({"kind": "deck", "slides": slides})
+    edit = {}
+    parts = _pptx_slide_parts(base)
+    for u in range(1, conc["nunits"] + 1):
+        nests = [a.get("nest", "") for a in conc["anchors"] if a["unit"] == u]
+        if any(nests):
+            def wrap(k, pic, nests=nests):
+                for d in range({"": 0, "grp": 1, "grp2": 2}[nests[k]]):
+                    pic = (f'<p:grpSp><p:nvGrpSpPr><p:cNvPr id="{700 + 10 * k + d}" name="Group {k}.{d}"/><p:cNvGrpSpPr/><p:nvPr/>'
+                           f'</p:nvGrpSpPr><p:grpSpPr/>{pic}</p:grpSp>')
+                return pic
+            edit[parts[u - 1]] = lambda b, wrap=wrap: _replace_nth(b.decode(), r"<p:pic>.*?</p:pic>", wrap).encode()
+    return zip_patch(base, add=media_files(conc), edit=edit)
+
+
+def _pptx_slide_parts(data: bytes) -> list:
+    """Slide part of every slide in PRESENTATION order (p:sldIdLst + relationships; file numbers mean nothing)."""
+    import posixpath
+    import re
+    z = zipfile.ZipFile(io.BytesIO(data))
+    rels = dict(re.findall(r'<Relationship Id="([^"]+)" Type="[^"]+" Target="([^"]+)"', z.read("ppt/_rels/presentation.xml.rels").decode()))
+    return [posixpath.normpath("ppt/" + rels[rid]) for rid in re.findall(r'<p:sldId [^>]*r:id="([^"]+)"', z.read("ppt/presentation.xml").decode())]
 
 
 # ----------------------------------------------------------------------------- XLSX
@@ -253,6 +312,9 @@ def _xlsx_anchor(m, a, rid):
     pic = (f'<xdr:pic><xdr:nvPicPr><xdr:cNvPr id="{m}" name="Picture {m}"/><xdr:cNvPicPr/></xdr:nvPicPr>'
            f'<xdr:blipFill><a:blip r:embed="{rid}"/></xdr:blipFill><xdr:spPr/></xdr:pic><xdr:clientData/>')
     frm = f'<xdr:from><xdr:col>1</xdr:col><xdr:colOff>0</xdr:colOff><xdr:row>{m}</xdr:row><xdr:rowOff>0</xdr:rowOff></xdr:from>'
+    if a.get("nest") == "grp":      # the picture sits in a shape group inside the anchor
+        pic = (f'<xdr:grpSp><xdr:nvGrpSpPr><xdr:cNvPr id="{700 + m}" name="Group {m}"/><xdr:cNvGrpSpPr/></xdr:nvGrpSpPr><xdr:grpSpPr/>'
+               + pic.replace("<xdr:clientData/>", "") + "</xdr:grpSp><xdr:clientData/>")
     cx, cy = a.get("ext") or (100, 100)
     if a.get("atype") == "two":
         to = f'<xdr:to><xdr:col>3</xdr:col><xdr:colOff>0</xdr:colOff><xdr:row>{m + 2}</xdr:row><xdr:rowOff>0</xdr:rowOff></xdr:to>'
@@ -391,6 +453,20 @@ def _odf_images(conc, unit):
 
 
 def build_odf(conc) -> bytes:
+    data = _build_odf_flat(conc)
+    nests = [a.get("nest", "") for a in conc["anchors"]]
+    if not any(nests):
+        return data
+
+    def wrap(k, frame):          # the k-th image frame of content.xml belongs to the k-th anchor (document order)
+        for d in range({"": 0, "g": 1, "gg": 2}[nests[k]]):
+            frame = f'<draw:g draw:name="Group{k}.{d}">{frame}</draw:g>'
+        return frame
+    pat = r'<draw:frame draw:name="Image\d+"[^>]*><draw:image [^>]*/></draw:frame>'
+    return zip_patch(data, edit={"content.xml": lambda b: _replace_nth(b.decode(), pat, wrap).encode()})
+
+
+def _build_odf_flat(conc) -> bytes:
     fmt = conc["fmt"]
     add = media_files(conc)
     if fmt == "odt":
@@ -413,8 +489,12 @@ def build_odf(conc) -> bytes:
 
 # ----------------------------------------------------------------------------- EPUB
 def build_epub(conc) -> bytes:
-    imgs = "".join(f'<p><img src="{escape(target_string(a["cands"][0], i + 1))}" alt="i{i + 1}"/></p>'
-                   for i, a in enumerate(conc["anchors"]))
+    def place(i, a):
+        img = f'<img src="{escape(target_string(a["cands"][0], i + 1))}" alt="i{i + 1}"/>'
+        return {"": f"<p>{img}</p>", "figure": f"<figure>{img}<figcaption>{word(960 + i)}</figcaption></figure>",
+                "a": f'<p><a href="https://example.invalid/">{img}</a></p>',
+                "td": f"<table><tr><td>{img}</td><td>{word(960 + i)}</td></tr></table>"}[a.get("nest", "")]
+    imgs = "".join(place(i, a) for i, a in enumerate(conc["anchors"]))
     chapter = ('<?xml version="1.0" encoding="utf-8"?><html xmlns="http://www.w3.org/1999/xhtml"><head><title>c</title></head>'
                f"<body><p>{word(901)}</p>{imgs}<p>{word(950)}</p></body></html>").encode()
     manifest, listed = [], set()
@@ -541,8 +621,15 @@ def build_rtf(conc) -> bytes:
         for a in conc["anchors"]:
             if a["unit"] == u:
                 m = conc["media"][a["cands"][0]["to"] - 1]
-                body += ("\\pard\\plain " + rtf_pict(m, a.get("wrap", 0), a.get("blipuid", False), a.get("crop", False),
-                                                         a.get("scale", False), a.get("eol", "\n")) + "\\par\n")
+                pict = rtf_pict(m, a.get("wrap", 0), a.get("blipuid", False), a.get("crop", False), a.get("scale", False),
+                                a.get("eol", "\n"))
+                if a.get("nest") == "shp":        # the picture is the fill ("pib") of a drawing shape
+                    body += ("\\pard\\plain {\\shp{\\*\\shpinst\\shpleft0\\shptop0\\shpright1500\\shpbottom1500\\shpwr3"
+                             "{\\sp{\\sn shapeType}{\\sv 75}}{\\sp{\\sn pib}{\\sv " + pict + "}}}}\\par\n")
+                elif a.get("nest") == "cell":     # the picture sits in a table cell
+                    body += "\\trowd\\cellx4000\\pard\\intbl " + pict + "\\cell\\row\n\\pard\\par\n"
+                else:
+                    body += "\\pard\\plain " + pict + "\\par\n"
         pages.append(body)
     return (head + "\\page\n".join(pages) + "}").encode("ascii")
 
